@@ -27,6 +27,9 @@ def run(ctx):
     skel = sorted(progflow.skel_cases(ctx), key=lambda c: c["id"])
     cases += skel[::(2 if quick else 1)]
     ctx.exhaustive["FamC16"] = True
+    # the implementation-shaped allocator model: explored exhaustively by TLC, refines Emit, replayed into the real converter (lib/allocflow.py)
+    import allocflow
+    cases += allocflow.run(ctx)
     wd = ctx.sub("emit")
     p0, p1 = os.path.join(wd, "c0.ndjson"), os.path.join(wd, "c1.ndjson")
     write_ndjson(p0, [{"id": c["id"], "prog": c["prog"]} for c in cases])
@@ -48,6 +51,7 @@ def run(ctx):
         if not c.get("attribution", True):
             raise Infra("line attribution failed (Dump diff not insertion-only) for " + c["id"])
         traced.append(c)
+    allocflow.compare(ctx, {c["id"]: c for c in ran})
     p2 = os.path.join(wd, "cases.ndjson")
     write_ndjson(p2, [{"id": c["id"], "events": c["events"]} for c in traced])
     verd, _ = ctx.tlc("Emit", workdir=ctx.sub("tlc-emit"), files=[(p2, "cases.ndjson")], timeout=3000, cover=[("Emit", "Event")])
@@ -63,4 +67,4 @@ def run(ctx):
             s = "Batch script ill-formed: %s (at converter call %d: %s)" % (v["why"], v["at"], v["ev"])
             ctx.report_failure(c["id"] + "#batch", {"property": "C16", "case": c["id"], "why": s, "source": c["src"], "script": c.get("script"),
                                                      "events": c["events"][max(0, v["at"] - 3):v["at"] + 1], "reproduce": "tsh -t batch"}, s)
-    return ctx.finish(rule=RULE, assumptions=ASSUME)
+    return ctx.finish(rule=RULE, assumptions=ASSUME, extra={"notes": ctx.notes})
